@@ -19,11 +19,16 @@
 EXTENDS ObsKit
 
 WorkerRoles == {"retry", "poll", "throttle", "timeout"}
+\* threads on which a cancel() reaching a future of the cancel-on-shutdown layer is the LIBRARY's doing: the thread inside
+\* shutdown() (the sweep) and the submitting threads (which call nothing but submit(): a cancel made on one of them is made
+\* by submit() itself).  Cancels by the scenario's canceller threads are the user's.
+LibCancelRoles == {"shutdown", "client"}
 
 ObsInit == [cos |-> 0,             \* index of the tap whose futures the cancel-on-shutdown layer returns (0: none)
             ntaps |-> 0,
             returned |-> {},       \* futures returned by submit() of the top executor
             calling |-> EmptyMap,  \* f -> TRUE if its SubmitCall came after shutdown() had returned
+            opencalls |-> {},      \* submit() calls that have neither returned nor raised yet
             done |-> {},           \* returned futures seen done (at the cos tap level)
             att |-> EmptyMap,      \* f -> number of cancel() calls made by the shutdown thread
             shcalls |-> 0, shrets |-> 0, wait |-> -1, nkw |-> -1, cf |-> -1,
@@ -40,10 +45,12 @@ TapOf(e) == IF e.s = "tap1" THEN 1 ELSE IF e.s = "tap2" THEN 2 ELSE IF e.s = "ta
 ObsNext(st, e) ==
   CASE e.ev = "Layer" -> [st EXCEPT !.ntaps = @ + 1, !.cos = IF e.s = "cos" THEN e.k ELSE 0]
     [] e.ev = "Cfg" -> [st EXCEPT !.cos = e.a, !.ntaps = e.b]
-    [] e.ev = "SubmitCall" -> [st EXCEPT !.calling = Put(@, e.f, st.shrets >= 1)]
-    [] e.ev = "SubmitRet" -> [st EXCEPT !.returned = @ \cup {e.f}, !.att = IF Has(@, e.f) THEN @ ELSE Put(@, e.f, 0)]
+    [] e.ev = "SubmitCall" -> [st EXCEPT !.calling = Put(@, e.f, st.shrets >= 1), !.opencalls = @ \cup {e.f}]
+    [] e.ev = "SubmitRet" -> [st EXCEPT !.returned = @ \cup {e.f}, !.att = IF Has(@, e.f) THEN @ ELSE Put(@, e.f, 0),
+                                        !.opencalls = @ \ {e.f}]
+    [] e.ev = "SubmitRaise" -> [st EXCEPT !.opencalls = @ \ {e.f}]
     [] e.ev = "DelegateState" /\ e.c = st.cos /\ e.s \in Terminal -> [st EXCEPT !.done = @ \cup {e.f}]
-    [] e.ev = "CancelArrived" /\ TapOf(e) = st.cos /\ st.cos > 0 /\ e.r = "shutdown" /\ ~st.dshopen ->
+    [] e.ev = "CancelArrived" /\ TapOf(e) = st.cos /\ st.cos > 0 /\ e.r \in LibCancelRoles /\ ~st.dshopen ->
           [st EXCEPT !.att = Put(@, e.f, Get(@, e.f, 0) + 1)]
     [] e.ev = "ShutdownCall" -> [st EXCEPT !.shcalls = @ + 1, !.wait = IF st.shcalls = 0 THEN e.a ELSE @,
                                            !.cf = IF st.shcalls = 0 THEN e.b ELSE @,
@@ -71,7 +78,7 @@ Clauses(st, e) ==
             \A f \in st.returned : f \notin st.done => Get(st.att, f, 0) = 1>>,
      <<"C10_AtMostOneCancel",
         \* (arrivals while the top executor's delegate.shutdown() call is in progress come from the layers below)
-        (e.ev = "CancelArrived" /\ st.cos > 0 /\ TapOf(e) = st.cos /\ e.r = "shutdown" /\ ~st.dshopen /\ OneCaller(st))
+        (e.ev = "CancelArrived" /\ st.cos > 0 /\ TapOf(e) = st.cos /\ e.r \in LibCancelRoles /\ ~st.dshopen /\ OneCaller(st))
             => Get(st.att, e.f, 0) = 0>>,
      <<"C10_RacingSubmitCovered",
         (e.ev = "End" /\ st.cos > 0 /\ st.shrets >= 1 /\ OneCaller(st)) =>
@@ -80,6 +87,12 @@ Clauses(st, e) ==
         (FirstShutdownRet(st, e) /\ st.cos > 0) => Get(st.dsh, st.cos, 0) = 1>>,
      <<"C11_SubmitRefusedAfter",
         (e.ev = "SubmitRet" /\ Has(st.calling, e.f)) => ~st.calling[e.f]>>,
+     <<"C11_LateSubmitReturns",      \* a submit() begun after shutdown() returned does not hang: it has raised by the end
+        e.ev = "End" => \A f \in st.opencalls : ~(Has(st.calling, f) /\ st.calling[f])>>,
+     <<"C11_RacingSubmitReturns",    \* "a submit() racing with shutdown() either raises that error or returns a future":
+        \* once shutdown() has returned no earlier submit() is still inside the call at the end (every scripted
+        \* callable terminates, so nothing a blocking submit() could be waiting for is still outstanding)
+        (e.ev = "End" /\ st.shrets >= 1) => st.opencalls = {}>>,
      <<"C11_RefusalIsTheDocumentedError",
         (e.ev = "SubmitRaise" /\ st.shcalls >= 1) => e.a = 1>>,
      <<"C11_Idempotent",
@@ -97,7 +110,7 @@ Clauses(st, e) ==
      <<"C11_ShutdownReturns",
         e.ev = "End" => st.shrets = st.shcalls>>,
      <<"C04_NoThreadBlockedForever",
-        (e.ev = "BlockedAtEnd" /\ e.r \in {"client", "shutdown", "canceller"}) => e.s \notin {"acquire", "cvwait", "join"}>>,
+        (e.ev = "BlockedAtEnd" /\ e.r \in {"client", "shutdown", "canceller"}) => e.s \notin {"acquire", "cvwait", "join", "spin"}>>,
      <<"C18_WorkerSurvives",
         (e.ev = "ThreadExit" /\ e.a = 1 /\ e.r \in WorkerRoles) => FALSE>> >>
 =============================================================================
